@@ -17,7 +17,6 @@ use tokio::runtime::Runtime;
 const REQ: &str = "Common.Base Store.Model_Naming";
 const V1: ManifestNamingScheme = ManifestNamingScheme::V1;
 const V2: ManifestNamingScheme = ManifestNamingScheme::V2;
-pub const KNOWN_V2_UNORDERED: &str = "v2_unordered_scan";
 
 #[derive(Clone, Copy, Debug, PartialEq)]
 pub enum StoreKind {
@@ -158,7 +157,7 @@ pub enum LRes {
 impl LRes {
     pub fn coq(&self) -> String {
         match self {
-            LRes::Found(v, f, s) => format!("(Found {} {} {})", v, coq::str_bytes(f), scheme_coq(*s)),
+            LRes::Found(v, f, s) => format!("(Found {} {} {})", v, nm(f), scheme_coq(*s)),
             LRes::NotFound => "NotFound".into(),
             LRes::Err => "LErr".into(),
             LRes::Panic => "LPanic".into(),
@@ -194,17 +193,10 @@ pub fn list_locations(rt: &Runtime, b: &Built, sorted: bool) -> Result<Vec<(u64,
 }
 
 pub fn names_coq(v: &[String]) -> String {
-    coq::list(v.iter().map(|s| coq::str_bytes(s)))
+    coq::list(v.iter().map(|s| nm(s)))
 }
 fn is_lex_sorted(v: &[String]) -> bool {
     v.windows(2).all(|w| w[0].as_bytes() < w[1].as_bytes())
-}
-
-/// the class of KNOWN_FINDINGS: V2 names, >= 2 attached manifests, store not flagged lexically ordered, and the
-/// local fast path not available (non-local store) or refusing (a file detected as V1 next to V2 names)
-pub fn in_known_class(kind: StoreKind, flag: bool, scheme: ManifestNamingScheme, attached: usize, files: &[String]) -> bool {
-    let local_ok = kind == StoreKind::Local && !files.iter().any(|f| ManifestNamingScheme::detect_scheme(f) == Some(V1));
-    scheme == V2 && !flag && attached >= 2 && !local_ok
 }
 
 pub struct Streams {
@@ -216,13 +208,13 @@ pub struct Streams {
 impl Streams {
     pub fn new() -> Self {
         let mut latest = Stream::new("latest", REQ, "chk_latest", "bool * bool * list name * list name", "lres");
-        latest.shard = 60;
+        latest.shard = 120;
         let mut list = Stream::new("list", REQ, "chk_list", "bool * bool * list name", "list (N * name * scheme)");
-        list.shard = 60;
+        list.shard = 250;
         let mut lex = Stream::new("lexorder", REQ, "chk_lex_listing", "list name", "list name");
-        lex.shard = 40;
+        lex.shard = 150;
         let mut migrate = Stream::new("migrate", REQ, "chk_migrate", "dir", "outcome dir");
-        migrate.shard = 60;
+        migrate.shard = 130;
         Streams { latest, list, lex, migrate }
     }
     pub fn add_to(self, sink: &mut Sink) {
@@ -235,6 +227,7 @@ impl Streams {
 
 /// Run discovery + listing on one built directory; push cases and oracles.
 pub fn check_dir(rt: &Runtime, sink: &mut Sink, st: &mut Streams, kind: StoreKind, spec: &DirSpec, b: &Built, tag: &str) -> LRes {
+    let light = tag == "long";
     let is_local = b.store.is_local();
     let flag = b.store.list_is_lexically_ordered;
     let rd = read_dir_names(b);
@@ -254,7 +247,7 @@ pub fn check_dir(rt: &Runtime, sink: &mut Sink, st: &mut Streams, kind: StoreKin
     st.latest.push(format!("({}, {}, {}, {})", coq::b(is_local), coq::b(flag), names_coq(&rd), names_coq(&ls)), res.coq(), human.clone());
 
     // a store flagged lexical must list in byte order (this is what "lexically ordered" means in the model)
-    if kind == StoreKind::MemLex {
+    if kind == StoreKind::MemLex && !light {
         st.lex.push(names_coq(&all_names), names_coq(&ls), json!({"files": all_names, "listing": ls}));
         if is_lex_sorted(&ls) {
             sink.oracle_ok();
@@ -278,9 +271,8 @@ pub fn check_dir(rt: &Runtime, sink: &mut Sink, st: &mut Streams, kind: StoreKin
             if ok {
                 sink.oracle_ok();
             } else {
-                let class = if in_known_class(kind, flag, *scheme, attached.len(), &all_names) { Some(KNOWN_V2_UNORDERED) } else { None };
                 sink.oracle_fail(
-                    class,
+                    None,
                     "latest-version discovery did not return the highest attached version",
                     json!({"arm": tag, "store": kind.label(), "is_local": is_local, "lexical_flag": flag, "scheme": scheme_coq(*scheme),
                         "attached": attached, "files": all_names, "read_dir": rd, "listing": ls, "expected": expect.json(), "got": res.json()}),
@@ -291,10 +283,13 @@ pub fn check_dir(rt: &Runtime, sink: &mut Sink, st: &mut Streams, kind: StoreKin
 
     // ---- list_manifest_locations, unsorted and sorted
     for sorted in [false, true] {
+        if light && !sorted {
+            continue;
+        }
         match list_locations(rt, b, sorted) {
             Ok(locs) => {
                 sink.count(&format!("list:{}:sorted={}", kind.label(), sorted));
-                let out = coq::list(locs.iter().map(|(v, f, s)| format!("({}, {}, {})", v, coq::str_bytes(f), scheme_coq(*s))));
+                let out = coq::list(locs.iter().map(|(v, f, s)| format!("({}, {}, {})", v, nm(f), scheme_coq(*s))));
                 st.list.push(
                     format!("({}, {}, {})", coq::b(sorted), coq::b(flag), names_coq(&ls)),
                     out,
@@ -353,7 +348,7 @@ pub fn check_migrate(rt: &Runtime, sink: &mut Sink, st: &mut Streams, kind: Stor
     }
     let r = catch(|| rt.block_on(migrate_scheme_to_v2(&b.store, &b.base)));
     let after = dir_contents(rt, b);
-    let dir_coq = |d: &[(String, u64)]| coq::list(d.iter().map(|(n, c)| format!("({}, {})", coq::str_bytes(n), c)));
+    let dir_coq = |d: &[(String, u64)]| coq::list(d.iter().map(|(n, c)| format!("({}, {})", nm(n), c)));
     let out: Result<String, bool> = match &r {
         Err(_) => Err(true),
         Ok(Err(_)) => Err(false),
@@ -414,9 +409,8 @@ pub fn check_migrate(rt: &Runtime, sink: &mut Sink, st: &mut Streams, kind: Stor
                 _ => None,
             };
             let flag = b.store.list_is_lexically_ordered;
-            let known_after = in_known_class(kind, flag, V2, attached.len(), &after.iter().map(|a| a.0.clone()).collect::<Vec<_>>());
             let order_ok = !flag || kind == StoreKind::MemLex;
-            if order_ok && !known_after && (v_of(&after_latest) != attached.iter().max().copied() || (v_of(latest_before).is_some() && v_of(latest_before) != v_of(&after_latest))) {
+            if order_ok && (v_of(&after_latest) != attached.iter().max().copied() || (v_of(latest_before).is_some() && v_of(latest_before) != v_of(&after_latest))) {
                 bad.push(format!("latest version changed by migration: {:?} -> {:?}", latest_before, after_latest));
             }
         }
@@ -594,7 +588,7 @@ pub fn run(args: &Args, sink: &mut Sink, rt: &Runtime) {
     }
 
     // ---- generated directories
-    for _ in 0..args.vol(260, 4000) {
+    for _ in 0..args.vol(260, 3000) {
         let kind = pick_store(&mut rng);
         let spec = gen_dir(&mut rng, kind == StoreKind::Local);
         let b = build(rt, kind, &spec, rng.next());
